@@ -203,13 +203,14 @@ def gen_case(rng, force_dir=None):
             'window_lo': WINDOW_LO, 'window_days': WINDOW_DAYS}
 
 
-def gen_aimed_case(rng, force_dir=None):
+def gen_aimed_case(rng, force_dir=None, kind=None):
     """Structured scenarios that the uniform generator reaches rarely (each found through a seeded change that
     the random stream missed); amounts, calendars, clock, bound and root order stay random."""
     c = gen_case(rng, force_dir)
     fwd = c['dir'] == 'fwd'
-    kind = rng.choice(['sideways', 'sideways', 'staggered', 'milestone-summary', 'stale-capacity', 'id-twin', 'tiny-share'] if fwd
-                      else ['sideways', 'sideways', 'milestone-summary', 'stale-capacity', 'id-twin', 'tiny-share'])
+    if kind is None:
+        kind = rng.choice(['sideways', 'sideways', 'staggered', 'milestone-summary', 'stale-capacity', 'id-twin', 'tiny-share'] if fwd
+                          else ['sideways', 'sideways', 'milestone-summary', 'stale-capacity', 'id-twin', 'tiny-share'])
     c['aimed'] = kind
     c['edit_calendars'] = []
     c['edit_same_scheduler'] = False
@@ -279,6 +280,20 @@ def gen_aimed_case(rng, force_dir=None):
         c['edit_calendars'] = [['a', rng.choice([wk(fewer, ['i', 8]), wk([0, 1, 2, 3, 4], ['i', rng.choice([2, 4])]),
                                                  ['wdict', None, None, [[d, ['i', 8 if d in fewer else 0]] for d in range(5)]]])]]
         c['edit_same_scheduler'] = rng.random() < 0.85
+    elif kind == 'bound-day':
+        # a calendar period that ends ON a day given as a date (midnight): that day belongs to the period.  Tasks of one
+        # resource share days, so that the later one begins (backward: ends) at a fraction of a day and is still at work when
+        # the bound day comes: the day must be used like any other.
+        out = [T(ids[0], None, resource='a', est=rng.choice([96, 72, 40, 160])), T(ids[1], None, resource='a', est=rng.choice([200, 320, 400]))]
+        if rng.random() < 0.4:
+            out.append(T(ids[2], None, resource='a', est=rng.choice([16, 64])))
+        c['tasks'], c['links'] = out, []
+        d0 = max(c['pbound'], c['now']) // DAY - BASE_DAY if fwd else c['pbound'] // DAY - BASE_DAY
+        k = rng.randint(1, 6)
+        bound = day_us(d0 + k) if fwd else day_us(d0 - 1 - k)
+        c['resources'] = [r for r in c['resources'] if r['name'] != 'a'] + \
+            [{'name': 'a', 'cal': ['binc', 'or', wk([0, 1, 2, 3, 4, 5, 6], ['i', 8], None, bound), wk([0, 1, 2, 3, 4, 5, 6], ['i', 8], bound + DAY, None)]}]
+        c['balance'] = True
     elif kind == 'tiny-share':
         # a resource with 1024 units a day and amounts of an eighth of a unit: the share of a day that a task takes is a
         # few seconds (1/8192 of a day = 10.546875 s, still a whole number of microseconds); dates must encode it exactly
@@ -492,6 +507,29 @@ def gen_task_aware_case(rng, force_dir=None):
         for k in range(0, 9):
             opened.append([t['id'], d0 + k if fwd else d0 - 1 - k])
     c['task_aware_open'] = opened
+    return c
+
+
+def gen_overtime_case(rng, d):
+    """aimed: one leaf with a little work whose whole reservation falls on a day that the calendar closes and the resource
+    opens for this task only (backward: the Sunday before a Monday deadline; forward: the Saturday a project starts on)"""
+    c = gen_task_aware_case(rng, d)
+    t = dict(c['tasks'][0])
+    # a full working week (the searches for a first day ask the resource without naming the task and skip the overtime
+    # days next to the bound) and a rest that lands on the weekend beyond it
+    t.update(parent=None, est=320 + rng.choice([16, 48, 64]), spent=None, start=None, end=None, min_start=None, milestone=False)
+    c['tasks'] = [t]
+    c['links'] = []
+    c['resources'] = [{'name': t['resource'], 'cal': wk([0, 1, 2, 3, 4], ['i', 8])}]
+    fwd = d == 'fwd'
+    d0 = 21550 + rng.randint(0, 3) * 7
+    while d0 % 7 != (2 if fwd else 4):          # day 0 is a Thursday: 2 = Saturday, 4 = Monday
+        d0 += 1
+    c['pbound'] = d0 * DAY
+    c['now'] = c['pbound'] - 3 * DAY
+    c['now2'] = None
+    c['task_aware'] = []
+    c['task_aware_open'] = [[t['id'], d0 + 7 + k if fwd else d0 - 8 - k] for k in range(2)]
     return c
 
 
@@ -739,6 +777,11 @@ def run_property(ctx, pid, fail_bits, mismatch_bits, dirs=('fwd', 'bwd'), extra=
     while len(cases) < n_corpus + n:
         fd = None if len(dirs) == 2 else dirs[0]
         cases.append(gen_aimed_case(ctx.rng, fd) if ctx.rng.random() < 0.16 else gen_case(ctx.rng, fd))
+    # scenarios added later draw from a stream of their own (the main stream, and what it is known to reach, stays as it was)
+    import random as _random
+    rng2 = _random.Random('%s/later-scenarios/%s' % (pid, ctx.seed))
+    for fd in dirs:
+        cases += [gen_aimed_case(rng2, fd, kind='bound-day') for _ in range(6 if ctx.tier == 'quick' else 60)]
     if extra_cases:      # a property's own additional stream (callable: drawn after the common stream)
         cases += list(extra_cases(ctx) if callable(extra_cases) else extra_cases)
     n_off = 0
@@ -758,6 +801,7 @@ def run_property(ctx, pid, fail_bits, mismatch_bits, dirs=('fwd', 'bwd'), extra=
             'aimed_stale_capacity': sum(1 for c, _ in kept if c.get('aimed') == 'stale-capacity'),
             'aimed_id_twin_prerequisites': sum(1 for c, _ in kept if c.get('aimed') == 'id-twin'),
             'aimed_tiny_share_of_a_day': sum(1 for c, _ in kept if c.get('aimed') == 'tiny-share'),
+            'aimed_period_ending_on_a_day': sum(1 for c, _ in kept if c.get('aimed') == 'bound-day'),
             'calendar_edited_in_place': sum(1 for c, o in kept if o.get('edited_in_place')),
             'calendar_edited_same_scheduler_object': sum(1 for c, _ in kept if c.get('edit_calendars') and c.get('edit_same_scheduler')),
             'offgrid_discarded': len(cases) - len(kept), 'illformed_discarded': 0, 'returned': 0, 'runtime_error': 0, 'crash': 0}
